@@ -168,7 +168,7 @@ func (o dop) token() string {
 		}
 		return "N:0"
 	case 'K':
-		return fmt.Sprintf("K:%s:%s", hxU(uint64(o.tag)), hxU(uint64(o.wt)))
+		return fmt.Sprintf("K:%s:%s", hxI(int64(o.tag)), hxI(int64(o.wt)))
 	case 'Z':
 		return fmt.Sprintf("Z:%s:%s", hxI(o.o), hxI(int64(o.whence)))
 	case 'M':
